@@ -243,8 +243,20 @@ class LazyGenerators:
                 for r in self.iterator_of(interp, v, s2, fr):
                     if r.kind == "exc":
                         out.append(("exc", r.value, finished(r.state)))
+                    elif r.value == TOP:
+                        # not a sequence the model can take element by element (the domain has its own way of looping over it):
+                        # this loop runs as a whole, from the state before its iterable was evaluated
+                        out.append(("state", st.set(key, ("genstate", func, pc, ("whole-loop",), (), ctx))))
                     else:
                         out.append(("state", r.state.set(key, ("genstate", func, pc, r.value, ys, ctx))))
+            return out
+        if kind == "for" and loopiter == ("whole-loop",):
+            stepf = prog.step(("whole", pc, sig), lambda: self._synth(prog, f"loop {pc}", self._params(prog, ctx), [_rewrite_returns(node), ret("next")]))
+            for k, v, ys, s2 in self._run_step(interp, n, prog, stepf, ctx, st, fr):
+                if k == "exc":
+                    out.append(("exc", v, finished(s2)))
+                else:
+                    out.append(("state", s2.set(key, ("genstate", func, len(prog.segments) if v == ("const", "ret") else pc + 1, None, ys, ctx))))
             return out
         orelse = [_rewrite_returns(s) for s in node.orelse]
         if kind == "for":
